@@ -350,7 +350,11 @@ def gen_resp(op, rng, version, cls):
         return {"echo": echo, "status": rng.choice([1, 1, 1, 1, 2, 3]), "reason": rng.choice(REASONS),
                 "message": (g_text(rng, True) if with_msg else None), "payload": None}
     if cls == "success":
-        return {"echo": "same", "status": 0, "reason": None, "message": None, "payload": gen_payload(op, rng, version)}
+        # (KMIP: Result Reason is REQUIRED on failure and optional otherwise, Result Message is optional: a success
+        # that carries either is a legal response)
+        x = rng.random()
+        return {"echo": "same", "status": 0, "reason": rng.choice(REASONS) if x < 0.12 else None,
+                "message": g_text(rng, True) if 0.08 < x < 0.2 else None, "payload": gen_payload(op, rng, version)}
     if cls == "failure-msg":
         return failure("same", True)
     if cls == "failure-nomsg":
